@@ -12,11 +12,11 @@ def tla_set(xs):
     return '{' + ','.join('"%s"' % x for x in xs) + '}'
 
 
-def ring_cfg(path, n, pinned, mode, maxcalls, maxarg, families, emit=True, maxu=1073741824):
+def ring_cfg(path, n, pinned, mode, maxcalls, maxarg, families, emit=True, maxu=1073741824, maxscript=99):
     t = open(os.path.join(SPEC, 'Scen_Ring.cfg.tmpl')).read()
     t = (t.replace('@N@', str(n)).replace('@PINNED@', 'TRUE' if pinned else 'FALSE').replace('@MODE@', mode)
           .replace('@MAXCALLS@', str(maxcalls)).replace('@MAXARG@', str(maxarg)).replace('@FAMILIES@', tla_set(families))
-          .replace('1073741824', str(maxu)))
+          .replace('1073741824', str(maxu)).replace('@MAXSCRIPT@', str(maxscript)))
     if not emit:
         t = t.replace('ACTION_CONSTRAINT EmitScenario\n', '')
     with open(path, 'w') as f:
@@ -26,20 +26,20 @@ def ring_cfg(path, n, pinned, mode, maxcalls, maxarg, families, emit=True, maxu=
 SCN_RE = re.compile(r'^"SCN (\{.*\})"$')
 
 
-def ring_raw(n, families=None, maxarg=None, pinned=False, force=False):
+def ring_raw(n, families=None, maxarg=None, pinned=False, force=False, maxu=1073741824, maxscript=99):
     """TLC run of Ring.tla in one-shot mode for capacity n: checks the refinement L1 => L0 on every
     transition and prints every behaviour as a scenario. Cached by spec hash.
     Returns (path of raw scenario file, stats dict)."""
     families = families or ALL_FAMILIES
     maxarg = (2 * n + 1) if maxarg is None else maxarg
-    key = core.sha(core.spec_hash(['Ring.tla', 'Contract.tla', 'Scen_Ring.cfg.tmpl']), n, ','.join(families), maxarg, pinned)
+    key = core.sha(core.spec_hash(['Ring.tla', 'Contract.tla', 'Scen_Ring.cfg.tmpl']), n, ','.join(families), maxarg, pinned, maxu, maxscript)
     d = core.ensure(os.path.join(OUT, 'scen'))
     raw = os.path.join(d, 'ring_N%d_%s.ndjson' % (n, key))
     meta = raw + '.meta.json'
     if os.path.exists(raw) and os.path.exists(meta) and not force:
         return raw, json.load(open(meta))
     cfg = os.path.join(SPEC, '_gen_ring_%d_%s_%d.cfg' % (n, key, os.getpid()))
-    ring_cfg(cfg, n, pinned, 'oneshot', 1, maxarg, families)
+    ring_cfg(cfg, n, pinned, 'oneshot', 1, maxarg, families, maxu=maxu, maxscript=maxscript)
     md = os.path.join(OUT, 'work', 'md_ring_%d_%s_%d' % (n, key, os.getpid()))
     t0 = time.time()
     try:
@@ -63,7 +63,7 @@ def ring_raw(n, families=None, maxarg=None, pinned=False, force=False):
     # vacuity guard: every operation of every requested family must have been taken
     stats = {'n': n, 'states': st['distinct'], 'transitions': st['generated'], 'actions': ops,
              'scenarios': len(lines), 'violated': viol, 'wall_s': round(time.time() - t0, 1), 'pinned': pinned,
-             'families': families, 'maxarg': maxarg}
+             'families': families, 'maxarg': maxarg, 'maxu': maxu}
     if viol and not pinned:
         with open(os.path.join(OUT, 'ring_violation_N%d.log' % n), 'w') as f:
             f.write(out)
@@ -343,3 +343,60 @@ def obs_build(pair, sid, k):
     steps.append({"op": "debug", "h": 0, "acc": DEBUG_FORMS[k % len(DEBUG_FORMS)]})
     steps.append({"op": "debug", "h": 0, "acc": DEBUG_FORMS[(k + 5) % len(DEBUG_FORMS)]})
     return {"id": sid, "n": n, "ty": "t", "tags": ["observers", "N%dM%d" % (n, m)], "steps": steps}
+
+
+# ------------------------------------------------------------------------------------------------
+# zero-sized elements at extreme capacities (C19): the behaviours TLC enumerates on the small-word
+# model (MaxU = 7, N in {7,6,5,4,3}: position arithmetic really wraps the word there) are mapped,
+# inputs only, onto the real 64-bit capacities usize::MAX, usize::MAX-1, 2^63+1, 2^63, 2^63-1, 2^32+1, ...
+
+Z_FAMILIES = ['single', 'positional', 'bulk', 'access', 'extend', 'drain']
+Z_MAP = {7: ['max'], 6: ['max-1'], 5: ['p63+1', 'p32+1'], 4: ['p63', 'p32'], 3: ['p63-1', 'p32-1']}
+Z_BASE = {'max': 1 << 30, 'max-1': (1 << 30) - 1, 'p63+1': (1 << 29) + 1, 'p63': 1 << 29, 'p63-1': (1 << 29) - 1,
+          'p32+1': (1 << 28) + 1, 'p32': 1 << 28, 'p32-1': (1 << 28) - 1}
+
+
+def z_raw(nm):
+    return ring_raw(nm, families=Z_FAMILIES, maxarg=2, maxu=7, maxscript=2)
+
+
+def z_arg(i, nm, size, ncode):
+    """an index argument of the small model as a code of the real word domain"""
+    if i < size + 2 and i < nm - 1:
+        return i
+    if ncode == 'max':
+        return min(Z_BASE['max'], Z_BASE['max'] + (i - nm))
+    return Z_BASE[ncode] + (i - nm)
+
+
+def z_build(raw, sid, ncode):
+    lay = raw['lay']
+    nm, start, size = lay['n'], lay['start'], lay['size']
+    size = min(size, 6)
+    steps = [{"op": "new"}]
+    if start <= nm // 2:
+        for _ in range(start):
+            steps += [{"op": "push_back"}, {"op": "pop_front"}]
+    else:
+        for _ in range(nm - start):
+            steps += [{"op": "push_front"}, {"op": "pop_back"}]
+    steps.append({"op": "caller_drop"})
+    steps += [{"op": "push_back"}] * size
+    for e in raw['evs']:
+        op = e['op']
+        s = {"op": op}
+        if op in ('remove', 'swap_remove_back', 'swap_remove_front', 'truncate_back', 'truncate_front', 'get', 'get_mut',
+                  'nth_front', 'nth_front_mut', 'nth_back', 'nth_back_mut', 'index', 'index_mut'):
+            s['i'] = z_arg(e['i'], nm, size, ncode)
+        elif op == 'swap':
+            s['i'] = z_arg(e['i'], nm, size, ncode)
+            s['j'] = z_arg(e['j'], nm, size, ncode)
+        elif op in ('extend', 'extend_from_slice'):
+            s['i'] = len(e['vals'])
+        elif op == 'drain':
+            s['bs'] = [e['bs']['t'], z_arg(e['bs']['x'], nm, size, ncode)] if e['bs']['t'] != 'u' else ['u']
+            s['be'] = [e['be']['t'], z_arg(e['be']['x'], nm, size, ncode)] if e['be']['t'] != 'u' else ['u']
+        steps.append(s)
+    steps += [{"op": "as_slices"}, {"op": "push_front"}, {"op": "pop_back"}, {"op": "as_slices"}]
+    return {"id": sid, "ty": "z", "ncode": ncode, "n": nm, "tags": ["zst", ncode, raw['evs'][0]['op']], "steps": steps,
+            "first_op": raw['evs'][0]['op'], "pred": {"start": start, "size": size}}
